@@ -1,6 +1,10 @@
 import PngVerif.Generated.Params
 import PngVerif.Model.Framing
 import PngVerif.Model.Text
+import PngVerif.Model.EncodeMeta
+import PngVerif.Model.Basic
+import PngVerif.Model.Encoder
+import PngVerif.Proofs.FramingLogic
 /-!
 # Tie A consistency theorems
 
@@ -35,5 +39,47 @@ theorem signature_value : Params.signature = [137, 80, 78, 71, 13, 10, 26, 10] :
 
 /-- sRGB substitutes for gamma and chromaticities (PNG specification 11.3.3.5) -/
 theorem srgb_substitutes : Params.srgbSubstitutes = [45455, 31270, 32900, 64000, 33000, 30000, 60000, 15000, 6000] := by decide
+
+/-- the text model's own constants are the extracted ones -/
+theorem text_model_constants :
+    Png.maxKeywordLen = Params.keywordMaxEncode ∧ Png.maxKeywordLen = Params.keywordMaxDecode ∧
+    Png.decompressionLimit = Params.decompressionLimit := by decide
+
+/-- the encoder-metadata model's sRGB substitutes are the extracted ones (`srgb.rs`) -/
+theorem encode_meta_srgb_constants :
+    EncodeMeta.substituteGamma :: EncodeMeta.substituteChroma.toList = Params.srgbSubstitutes := by decide
+
+/-- colour types, samples per pixel and bit depths of `common.rs` = the model's `samplesOf` / `depthOk`
+    (checked for every `u8` value) -/
+def colorDepthOk : Bool :=
+  Params.colorTypes.all (fun p => samplesOf p.1 == p.2) &&
+  (List.range 256).all (fun c => (Params.colorTypes.map (·.1)).contains c || samplesOf c == 0) &&
+  (List.range 256).all (fun d => depthOk d == Params.bitDepths.contains d)
+theorem color_depth_tables : colorDepthOk = true := by decide +kernel
+
+/-- `is_combination_invalid` of the source = the model's `combinationInvalid` (for every pair of values up to 16: beyond that `from_u8` of one of the two has already refused), and the
+    fifteen legal pairs are exactly the (colour, depth) pairs of the two tables that are not excluded -/
+def combosOk : Bool :=
+  (List.range 17).all (fun c => (List.range 17).all (fun d =>
+    combinationInvalid c d == Params.invalidCombos.any (fun p => p.1 == c && p.2 == d)))
+theorem invalid_combos_table : combosOk = true := by decide +kernel
+theorem legal_pairs_table :
+    legalPairs = (Params.colorTypes.map (·.1)).flatMap (fun c => (Params.bitDepths.filter (fun d => !(Params.invalidCombos.any (fun p => p.1 == c && p.2 == d)))).map (fun d => (c, d))) := by
+  decide +kernel
+
+/-- the chunk kinds `parse_chunk` has an arm for = the kinds the model's `dispatch` knows (`dispatch_unknown`) -/
+theorem parse_dispatch_kinds :
+    Params.parseDispatch.map (fun l => ((l.getD 0 0 * 256 + l.getD 1 0) * 256 + l.getD 2 0) * 256 + l.getD 3 0) = knownTypes := by decide
+
+/-- `chunk::is_critical` tests bit 5 of the first type byte -/
+theorem critical_bit (t : ChunkType) : isCritical t = decide ((t / 16777216) % (2 * Params.criticalMask) < Params.criticalMask) := by
+  rfl
+
+/-- the filter-type bytes `RowFilter::from_u8` accepts -/
+theorem row_filter_bytes : Params.rowFilters = [0, 1, 2, 3, 4] := by decide
+
+/-- chunk-size constants of the encoder model -/
+theorem encoder_constants :
+    Enc.maxIdatChunkLen = Params.maxIdatChunkLen ∧ Enc.maxFdatChunkLen = Params.maxFdatChunkLen := by decide
 
 end Png.TieA
